@@ -27,7 +27,9 @@ type histOp struct {
 // every tokeniser state sends tokens after the point where a failing parser has returned: strings with interpolation,
 // comments, verbatim sections, brackets
 var histFrags = []string{"a", "{% include 'inc' %}", "{% for v in [1, 2] %}", "{{ v }}", "{% endfor %}", "b",
-	`{{ "s#{x ~ 'i'}t" }}`, "{# c #}", "{% verbatim %}{{ q }}{% endverbatim %}", "{{ {k: [1, (2)]}.k[1] }}c"}
+	`{{ "s#{x ~ 'i'}t" }}`, "{# c #}", "{% verbatim %}{{ q }}{% endverbatim %}", "{{ {k: [1, (2)]}.k[1] }}c",
+	// more tokens than bytes: empty strings and empty comments (a token need not consume input)
+	"{% set row = [" + strings.Repeat("'', ", 60) + "''] %}" + strings.Repeat("{##}", 30) + `{{ "#{''}#{''}#{''}" }}`}
 
 func histSources(kind string, inline bool) (entry string, files map[string]string) {
 	inc := "<{{ x }}>"
